@@ -35,6 +35,7 @@ import Proofs.FitValid
 import Proofs.FitPayload
 import Proofs.FitAround
 import Proofs.FitTail
+import Proofs.InsertAtValid
 import Proofs.JoinSuccess
 import Proofs.Placement
 import Props.C01
@@ -1673,6 +1674,9 @@ The theorems above are about the *emitted step*.  This section composes them int
 * `delete_valid`, `deleteRange_valid` (unconditional), `insertInline_valid_partial`, `replace_valid_of_inv_partial` and the
   lifts through the plans of `replace_range` / `replace_range_with` (`replaceRange_valid_delete`,
   `replaceRange_valid_inline_partial`, `replaceRange_valid_of_inv_partial`, `replaceRangeWith_valid_*_partial`);
+* `aroundPayload_of_norm`, `insertInline_valid_of_norm`, `replace_valid_of_inv_of_norm` — `AroundPayload` discharged by
+  `insertAt_openValid` (Proofs/InsertAtValid.lean) for documents in normal form and `textStableB` schemas; what is left
+  for a `ReplaceAroundStep` answer is that its slice is in normal form (`fnorm`, decidable; not proved for the Fitter);
 * `delete_total_valid`, `deleteRange_total_valid`, `insertInline_total_valid_partial` — with the totality theorems: the
   operation does not raise inside `replace_step`, and its `Step.apply` ends in a valid document with the content kept or
   in a `ReplaceError`-class refusal (`failed` / `valueError`), never in an internal error.
@@ -2171,5 +2175,85 @@ theorem replaceRangeWith_valid_inline_partial (S : Schema) (hdet : detB S = true
     exact h
   exact replaceRange_valid_inline_partial S hdet hfill hwrap hlab hleaf hts hcl doc doc' f t ⟨[node], 0, 0⟩ cs hv hattrs
     hft (by simp [Slice.wf]) hcs c hc hsl hslv st hst hpa ha
+
+/-- **`aroundPayload_of_norm`** — the residual `AroundPayload` reduced to normal form: on a valid document in normal form,
+    for a schema with `FromDom.textStableB` (a text child does not change what the content automaton accepts next), a
+    well-formed replace-around answer whose slice is a valid payload **and in normal form** (`fnorm`: no empty text
+    nodes, no adjacent text nodes with equal marks) has a valid payload with the gap content in place —
+    `Slice.insert_at(insert, gap)` keeps `openValid` at every position (`insertAt_openValid`, Proofs/InsertAtValid.lean:
+    a receiving node that is complete in the slice is checked by `can_replace`, one on an open side is validated by
+    `replace` when the slice is placed), and the gap `[to, to.end())` is a closed slice of valid nodes in normal form -/
+theorem aroundPayload_of_norm (S : Schema) (hst : PM.FromDom.textStableB S = true) (doc : Node) (f t : Nat)
+    (req : Slice) (hv : C01.Valid S doc) (hn : fnorm doc.kids = true) (st : Step)
+    (h : replaceStep S doc f t req = .ok (some st)) (hwf : StepWF st = true)
+    (hp : ∃ sl', st.sliceOf = some sl' ∧ openValid S sl'.openStart sl'.openEnd sl'.content = true)
+    (hsn : ∀ sl', st.sliceOf = some sl' → fnorm sl'.content = true) : AroundPayload S doc st := by
+  intro F T G1 G2 sl ins b hst'
+  subst hst'
+  obtain ⟨sl', hs, hval⟩ := hp
+  simp only [Step.sliceOf, Option.some.injEq] at hs
+  subst hs
+  simp only [StepWF, Bool.and_eq_true, decide_eq_true_eq] at hwf
+  intro gap res hgap hres
+  have hg := fit_around_gap_valid S doc f t req hv F T G1 G2 sl ins b h gap hgap
+  have hgn := (sliceKids_norm doc.kids G1 G2 gap hn hgap).1
+  exact insertAt_openValid S (PM.FromDom.textStable_of_B S hst) sl res ins gap.content hg hgn (hsn sl rfl) hwf.2 hval hres
+
+/-- **`insertInline_valid_of_norm`** — `insertInline_valid_partial` with the residual reduced to the normal form of the
+    emitted slice (a decidable property of the recorded step; the document in normal form, the schema
+    `textStableB`): no payload hypothesis left for either step kind -/
+theorem insertInline_valid_of_norm (S : Schema) (hdet : detB S = true) (hfill : S.fillersOKB = true)
+    (hwrap : S.wrapOKB = true) (hlab : S.labelsOKB = true) (hleaf : PM.FromDom.leafOkB S = true)
+    (hts : textStableC S = true) (hcl : S.closableB = true) (hst : PM.FromDom.textStableB S = true)
+    (doc doc' : Node) (f t : Nat) (sl : Slice)
+    (hsl : sl.inlineLeaves S = true) (hslv : sl.closedValid S = true) (hv : C01.Valid S doc)
+    (hn : fnorm doc.kids = true) (hattrs : S.nodeAttrsOK doc = true) (hft : f ≤ t) (st : Step)
+    (h : replaceStep S doc f t sl = .ok (some st))
+    (hsn : ∀ F T G1 G2 sl' ins b, st = .replaceAround F T G1 G2 sl' ins b → fnorm sl'.content = true)
+    (ha : S.apply st doc = .ok doc') :
+    C01.Valid S doc' ∧ Kept (ftoks doc.kids) (ftoks doc'.kids) f t (textUnits (sliceToks' sl)) := by
+  refine insertInline_valid_partial S hdet hfill hwrap hlab hleaf hts hcl doc doc' f t sl hsl hslv hv hattrs hft st h ?_ ha
+  intro F T G1 G2 sl' ins b hst'
+  refine aroundPayload_of_norm S hst doc f t sl hv hn st h
+    (insertInline_emits_wf S hdet hfill hwrap doc f t sl hsl hv hattrs hft st h).1
+    (insertInline_emits_valid_payload S hdet hfill hwrap hlab hleaf hts hcl doc f t sl hsl hslv hv hattrs st h) ?_
+    F T G1 G2 sl' ins b hst'
+  intro sl2 hs2
+  subst hst'
+  simp only [Step.sliceOf, Option.some.injEq] at hs2
+  subst hs2
+  exact hsn _ _ _ _ _ _ _ rfl
+
+/-- **`replace_valid_of_inv_of_norm`** — `replace_valid_of_inv_partial` likewise: any well-formed `openValid` slice under
+    `fitEndInv ≠ some false`, the residual for a replace-around answer reduced to the normal form of its slice -/
+theorem replace_valid_of_inv_of_norm (S : Schema) (hdet : detB S = true) (hfill : S.fillersOKB = true)
+    (hleaf : PM.FromDom.leafOkB S = true) (hts : textStableC S = true) (hcl : S.closableB = true)
+    (hst : PM.FromDom.textStableB S = true)
+    (doc doc' : Node) (f t : Nat) (sl : Slice) (hwf : sl.wf = true)
+    (hslv : openValid S sl.openStart sl.openEnd sl.content = true) (hv : C01.Valid S doc)
+    (hn : fnorm doc.kids = true) (hattrs : S.nodeAttrsOK doc = true) (hft : f ≤ t) (st : Step)
+    (h : replaceStep S doc f t sl = .ok (some st))
+    (hend : fitEndInv S doc f t sl ≠ some false)
+    (hsn : ∀ F T G1 G2 sl' ins b, st = .replaceAround F T G1 G2 sl' ins b → fnorm sl'.content = true)
+    (ha : S.apply st doc = .ok doc') :
+    C01.Valid S doc' ∧ Kept (ftoks doc.kids) (ftoks doc'.kids) f t (textUnits (sliceToks' sl)) := by
+  refine replace_valid_of_inv_partial S hdet hfill hleaf hts hcl doc doc' f t sl hwf hslv hv hattrs hft st h hend ?_ ha
+  intro F T G1 G2 sl' ins b hst'
+  have hswf : StepWF st = true := by
+    -- `StepWF` does not depend on the payload residual: derive it with the in-step half
+    have hi := inStep_of_endInv S doc f t sl st h hend
+    refine replaceStep_wf_of_inStep S (detS_of_detB S hdet) (fillersOK_of_B S hfill) doc f t sl hattrs hwf st h ?_
+    intro rf st0 st1 h1 h2 h3
+    rcases hi rf st0 st1 h1 h2 h3 with e | e
+    · rw [e] at hst'; cases hst'
+    · exact e
+  refine aroundPayload_of_norm S hst doc f t sl hv hn st h hswf
+    (fit_emits_valid_payload_of_inv S hdet hfill hleaf hts hcl doc f t sl hslv hattrs st h hend) ?_
+    F T G1 G2 sl' ins b hst'
+  intro sl2 hs2
+  subst hst'
+  simp only [Step.sliceOf, Option.some.injEq] at hs2
+  subst hs2
+  exact hsn _ _ _ _ _ _ _ rfl
 
 end PM.C11
